@@ -49,7 +49,7 @@ pub fn peek_id(s: &Sexp) -> Option<String> {
 pub fn decode_case(s: &Sexp) -> R<Case> {
     let items = s.expect("case")?;
     if items.len() < 4 {
-        return Err("case needs an id, (ps N), (prio …) and (modules …)".to_string());
+        return Err("case needs an id, (ps N), (prio ...) and (modules ...)".to_string());
     }
     let id = items[0].as_str()?.to_string();
     let ps = match items[1].expect("ps")? {
@@ -123,7 +123,7 @@ fn decode_modent(s: &Sexp) -> R<ModEnt> {
             }
             _ => Err("expected (tmodule \"file\" \"TEXT\")".to_string()),
         },
-        _ => Err(format!("expected (module …) or (tmodule …), found {s}")),
+        _ => Err(format!("expected (module ...) or (tmodule ...), found {s}")),
     }
 }
 
@@ -164,16 +164,27 @@ fn decode_opt<'a>(s: &'a Sexp) -> R<Option<&'a Sexp>> {
     }
 }
 
+/// Nesting limit for TYPE, so that a hostile case line cannot overflow the stack of the
+/// (unprotected) parent process.
+const MAX_TYPE_DEPTH: usize = 256;
+
 fn decode_type(s: &Sexp) -> R<Type> {
-    let bad = || format!("malformed TYPE {s}");
+    decode_type_at(s, 0)
+}
+
+fn decode_type_at(s: &Sexp, depth: usize) -> R<Type> {
+    if depth > MAX_TYPE_DEPTH {
+        return Err(format!("TYPE nested deeper than {MAX_TYPE_DEPTH} levels"));
+    }
+    let inner = |t: &Sexp| decode_type_at(t, depth + 1).map(Box::new);
     let items = s.as_list()?;
     match (s.head(), &items[1.min(items.len())..]) {
-        (Some("cptr"), [t]) => Ok(Type::ConstPointer(Box::new(decode_type(t)?))),
-        (Some("mptr"), [t]) => Ok(Type::MutPointer(Box::new(decode_type(t)?))),
-        (Some("arr"), [t, n]) => Ok(Type::Array(Box::new(decode_type(t)?), to_usize(n)?)),
+        (Some("cptr"), [t]) => Ok(Type::ConstPointer(inner(t)?)),
+        (Some("mptr"), [t]) => Ok(Type::MutPointer(inner(t)?)),
+        (Some("arr"), [t, n]) => Ok(Type::Array(inner(t)?, to_usize(n)?)),
         (Some("id"), [n]) => Ok(Type::Ident(ident(n)?)),
         (Some("unk"), [n]) => Ok(Type::Unknown(to_usize(n)?)),
-        _ => Err(bad()),
+        _ => Err(format!("malformed TYPE {s}")),
     }
 }
 
